@@ -36,6 +36,28 @@ pub fn run(ctx: &mut Ctx) {
         if resonant {
             ctx.count("resonant_cepstra", 1.0);
         }
+        let mut c = c;
+        if !resonant && order >= 4 && idx % 4 == 1 {
+            // strong low-pass tilt with a negative second coefficient: sharpening LOWERS the energy here
+            c[1] = rng.uniform(1.2, 2.4);
+            c[2] = rng.uniform(-0.5, -0.1);
+            for x in c.iter_mut().skip(3) {
+                *x *= 0.2;
+            }
+            ctx.count("tilt_cepstra", 1.0);
+        }
+        if !resonant && order >= 4 && idx % 8 == 2 {
+            // exact zeros: the gain term or an interior coefficient
+            match rng.below(3) {
+                0 => c[0] = 0.0,
+                1 => c[1] = 0.0,
+                _ => {
+                    let k = rng.range(2, order - 2);
+                    c[k] = 0.0;
+                }
+            }
+            ctx.count("cepstra_with_exact_zeros", 1.0);
+        }
         // the law: c'_1 = c_1, c'_m = (1+beta) c_m for m >= 2 (c'_0 free)
         let mut cp = c.clone();
         for m in 2..order {
